@@ -199,6 +199,26 @@ type optStruct struct {
 	Emb    map[int]time.Time `json:"emb,omitempty"`
 }
 
+// reUn re-enters Unmarshal from inside its own UnmarshalJSON (two buffered decoders alive at once).
+type reUn struct {
+	Inner map[string]any
+	Raw   string
+}
+
+func (r *reUn) UnmarshalJSON(b []byte) error {
+	Yield()
+	r.Raw = string(b)
+	err := jsonv2.Unmarshal(b, &r.Inner)
+	Yield()
+	return err
+}
+
+// embRaw has an embedded raw value; marshaling fails unless it holds an object.
+type embRaw struct {
+	A int            `json:"a"`
+	X jsontext.Value `json:",embed"`
+}
+
 type texter struct{ A, B int }
 
 func (t texter) MarshalText() ([]byte, error) {
@@ -340,6 +360,18 @@ func Alphabet() []Call {
 				in[i] = '#'
 			}
 			return mk(len(v), err)
+		}},
+		{"Marshal failing on an embedded raw value that is not an object", func() Result {
+			b, err := jsonv2.Marshal([]any{embRaw{1, jsontext.Value(`{"k":2}`)}, embRaw{2, jsontext.Value(`[1,2]`)}}, jsonv2.Deterministic(true))
+			return mk(b, err)
+		}},
+		{"Unmarshal with UnmarshalJSON re-entering Unmarshal (nested, twice)", func() Result {
+			var v struct {
+				P reUn
+				L []reUn
+			}
+			err := jsonv2.Unmarshal([]byte(`{"P":{"a":[1,{"b":"x"}]},"L":[{"c":1},{"d":{"e":[true]}}]}`), &v)
+			return mk(fmt.Sprintf("%s %s %d %s", v.P.Raw, Render(v.P.Inner), len(v.L), Render(v.L[len(v.L)-1].Inner)), err)
 		}},
 		{"Unmarshal with panicking UnmarshalJSONFrom at depth 2", func() Result {
 			return recoverAs(func() Result {
